@@ -58,7 +58,13 @@ PROPS = {
     },
     "C03": {
         "class_prefixes": ["c03-", "harness-crash"],
-        "subs": [{"name": "codec", "n_quick": 1500, "n_thorough": 40000, "model": "coq/Codec/{Enc,Dec}.v",
+        "subs": [{"name": "typed", "n_quick": 1200, "n_thorough": 6000, "oracle": False,
+             "rule": "typed protocol items (9 performatives + Performative, 5 SASL frames, DeliveryState/Outcome with every variant, Error, "
+                     "Source, Target, TargetArchetype, Coordinator, message sections, Message<Body<Value>> with all 64 section subsets x 4 body kinds): "
+                     "random field presence and boundary values; on the implementation: from_slice(to_vec(x)) == x and re-encodes equally, "
+                     "serialized_size == length, to_value/from_value and to_vec(to_value(x)) == to_vec(x), from_reader (Cursor and 1/2/3/7-byte reads) "
+                     "== from_slice; every call under catch_unwind"},
+                 {"name": "codec", "n_quick": 1500, "n_thorough": 40000, "model": "coq/Codec/{Enc,Dec}.v",
              "rule": "enc cases: random Values of all 25 variants (depth <= 3, quick; <= 5 thorough), boundary lengths 0/1/253..257, "
                      "non-ASCII strings, maps with keys of every type, arrays of every element kind (10% of the known-finding kinds); "
                      "dec cases: the encodings, 2 structure-aware corruptions of each, a catalogue of hostile inputs (former panics, "
@@ -76,7 +82,13 @@ PROPS = {
     },
     "C04": {
         "class_prefixes": ["c04-", "harness-crash"],
-        "subs": [{"name": "codec", "n_quick": 1500, "n_thorough": 40000, "model": "coq/Codec/{Enc,Dec}.v",
+        "subs": [{"name": "typed", "n_quick": 1200, "n_thorough": 6000, "oracle": False,
+             "rule": "typed protocol items (9 performatives + Performative, 5 SASL frames, DeliveryState/Outcome with every variant, Error, "
+                     "Source, Target, TargetArchetype, Coordinator, message sections, Message<Body<Value>> with all 64 section subsets x 4 body kinds): "
+                     "random field presence and boundary values; on the implementation: from_slice(to_vec(x)) == x and re-encodes equally, "
+                     "serialized_size == length, to_value/from_value and to_vec(to_value(x)) == to_vec(x), from_reader (Cursor and 1/2/3/7-byte reads) "
+                     "== from_slice; every call under catch_unwind"},
+                 {"name": "codec", "n_quick": 1500, "n_thorough": 40000, "model": "coq/Codec/{Enc,Dec}.v",
              "rule": "enc cases: random Values of all 25 variants (depth <= 3, quick; <= 5 thorough), boundary lengths 0/1/253..257, "
                      "non-ASCII strings, maps with keys of every type, arrays of every element kind (10% of the known-finding kinds); "
                      "dec cases: the encodings, 2 structure-aware corruptions of each, a catalogue of hostile inputs (former panics, "
@@ -93,7 +105,13 @@ PROPS = {
     },
     "C20": {
         "class_prefixes": ["c20-", "harness-crash"],
-        "subs": [{"name": "codec", "n_quick": 1500, "n_thorough": 40000, "model": "coq/Codec/{Enc,Dec}.v",
+        "subs": [{"name": "typed", "n_quick": 1200, "n_thorough": 6000, "oracle": False,
+             "rule": "typed protocol items (9 performatives + Performative, 5 SASL frames, DeliveryState/Outcome with every variant, Error, "
+                     "Source, Target, TargetArchetype, Coordinator, message sections, Message<Body<Value>> with all 64 section subsets x 4 body kinds): "
+                     "random field presence and boundary values; on the implementation: from_slice(to_vec(x)) == x and re-encodes equally, "
+                     "serialized_size == length, to_value/from_value and to_vec(to_value(x)) == to_vec(x), from_reader (Cursor and 1/2/3/7-byte reads) "
+                     "== from_slice; every call under catch_unwind"},
+                 {"name": "codec", "n_quick": 1500, "n_thorough": 40000, "model": "coq/Codec/{Enc,Dec}.v",
              "rule": "enc cases: random Values of all 25 variants (depth <= 3, quick; <= 5 thorough), boundary lengths 0/1/253..257, "
                      "non-ASCII strings, maps with keys of every type, arrays of every element kind (10% of the known-finding kinds); "
                      "dec cases: the encodings, 2 structure-aware corruptions of each, a catalogue of hostile inputs (former panics, "
